@@ -39,7 +39,7 @@ def generate(ctx):
             # large draw margin: kappa 1e-2 (or 1e-3) with beta scaled down to 1e-3 .. 1e-1 of default
             sc = 10 ** ctx.rng.uniform(-3, -1)
             cfg = gen.gen_cfg(ctx.rng, scale=sc, gammas=["default", "one", "three", "dep"], kappas=(1e-2, 1e-2, 1e-3))
-        regime = ctx.rng.choice(["round_numbers", "mismatch", "mismatch", "mismatch", "typical", "wide", "huge_sigma", "tiny_sigma",
+        regime = ctx.rng.choice(["round_numbers", "coincidences", "mismatch", "mismatch", "mismatch", "typical", "wide", "huge_sigma", "tiny_sigma",
                                  "corners", "identical", "equal_size"])
         model = ctx.rng.choice(MODEL_NAMES + ["ThurstoneMostellerFull", "ThurstoneMostellerPart"])
         case, meta = gen.gen_case(ctx.rng, model=model, regime=regime, cfg=cfg)
